@@ -36,7 +36,7 @@ REVERSIBLE = {
     "set_objective", "set_direction", "set_obj_coef", "add_cons", "add_var", "remove_cons_vars",
     "knock_out_gene", "set_functional", "knock_out_model_genes", "remove_genes", "rename_genes",
     "medium", "build_from_string", "optimize", "slim_optimize", "enter", "exit", "exit_exc",
-    "copy", "deepcopy", "pickle", "rxn_copy", "rxn_arith", "helper",
+    "copy", "deepcopy", "pickle", "rxn_copy", "rxn_arith", "helper", "merge",
 }
 LIFECYCLE = {"copy", "deepcopy", "pickle"}
 NO_CONTENT_CHANGE = {"optimize", "slim_optimize", "repair", "solver", "tolerance", "rxn_copy", "rxn_arith"}
@@ -51,6 +51,10 @@ _DEVNULL = _Null()
 
 
 class Skip(Exception):
+    pass
+
+
+class EndRun(Exception):
     pass
 
 
@@ -334,7 +338,16 @@ class Hist:
             a.ref = project_ref(pre, op["fmt"], self.quarantine)
             if pre.direction == "min" and a.ref.direction == "max":
                 self.stats["quarantined:dict_direction_dropped"] += 1
-        snap = S.snap(a.model)
+        try:
+            snap = S.snap(a.model)
+        except Exception as e:
+            # reading the model back fails (e.g. optlang's deferred update raises): C01 says the solver must hold the
+            # model's problem after every operation; other properties end the run quietly
+            if "lp_mirror" in self.oracles:
+                raise Violation("lp_unreadable", {"what": f"after {kind} the solver problem cannot be brought up to date",
+                                                  "exception": repr(e)[:300]}, culprit=op)
+            self.stats["run_ended:model_unreadable"] += 1
+            raise EndRun()
         if raised is not None:
             self.stats[f"op_failed:{kind}"] += 1
             self.stats[f"raised:{type(raised).__name__}"] += 1
@@ -353,6 +366,24 @@ class Hist:
                 saved_user = a.ref.user
                 a.ref = self._resync(a, a.ref, op)
                 a.ref.user = saved_user
+            elif kind == "helper":
+                # helpers add LP objects and may replace the objective; the model content is unchanged
+                self.stats["judged_P"] += 1
+                keep, a.ref = a.ref, pre.clone(keep_stack=True)
+                a.ref.obj = None
+                a.ref.direction = snap["objective"]["direction"]
+                self._judge_content(a, snap, f"after helper {op['name']}", op)
+                a.ref = self._resync(a, pre, op)
+            elif kind == "merge" and not op.get("inplace", True):
+                merged = getattr(env, "merged", None)
+                a.ref = pre
+                self._judge_content(a, snap, "left model after merge(inplace=False)", op)
+                if merged is not None:
+                    tmp = Actor(merged, self._merged_ref(pre, op))
+                    msnap = S.snap(merged)
+                    if tmp.ref is not None:
+                        self._judge_content(tmp, msnap, "result of merge(inplace=False)", op)
+                        self._invariants(tmp, msnap, op)
             elif kind == "restart":
                 self._judge_restart(a, op, snap, pre)
                 user = a.ref.user
@@ -452,8 +483,16 @@ class Hist:
             for n, u in ref.user.items():
                 if u["kind"] == "con" and n not in op["names"]:
                     used |= set(u["coefs"])
+            for row in ((a.prev or {}).get("lp") or {}).get("rows", {}).values():
+                used |= set(row[2])
             if set(op["names"]) & used:
-                raise Skip("variable referenced by a user constraint")
+                raise Skip("variable referenced by a constraint (optlang drops it from the rows for good, H-02)")
+            try:
+                in_obj = {getattr(k, "name", None) for k, v in a.model.solver.objective.expression.as_coefficients_dict().items() if v != 0}
+            except Exception:
+                in_obj = set()
+            if set(op["names"]) & in_obj:
+                raise Skip("variable is part of the objective (optlang keeps stale terms of removed variables, H-02)")
         # bounds domain: lb in finite U {-inf}, ub in finite U {+inf} (a flux cannot be forced to +-inf)
         for spec in ([op] if kind == "set_bounds" else op.get("rxns", []) if kind == "add_reactions" else []):
             if spec.get("lb") == INF or spec.get("ub") == -INF:
@@ -488,6 +527,10 @@ class Hist:
             d = self.detached.get(op["r2"])
             if d is None or any(m.id not in ref.mets for m in d["obj"]._metabolites):
                 raise Skip("detached operand with metabolites unknown to the model")
+        # a helper applied to a problem that already holds its variables is a user error that optlang reports only at
+        # its next update (duplicate names queued)
+        if kind == "helper" and op.get("name") == "add_lp_feasibility" and any(n.startswith("s_plus_") for n in ref.user):
+            raise Skip("add_lp_feasibility applied twice")
         # H-01: GLPK aborts the process when solving with an empty column present
         if kind in ("optimize", "slim_optimize", "helper"):
             if any(not r._metabolites for r in a.model.reactions):
@@ -498,6 +541,16 @@ class Hist:
         if op["op"] in ("add_cons", "add_var", "remove_cons_vars", "helper", "merge"):
             user = observe_user(a.model)
         r = Ref.from_model(a.model, user=user, stack=pre.stack)
+        return r
+
+    def _merged_ref(self, pre, op):
+        r = pre.clone()
+        r.stack = []
+        env = Env(self, None)
+        st = r.t_merge(dict(op, inplace=True), env)
+        if st != "ok":
+            return None
+        r.id = f"{pre.id}_{op['right']['id']}"
         return r
 
     def _judge_exit(self, a, snap, op):
@@ -531,7 +584,7 @@ class Hist:
             src = S.snap(a.model)
             s1, s2 = copy.deepcopy(src), copy.deepcopy(snap)
             s1["cfg"]["depth"] = s2["cfg"]["depth"] = 0
-            d = S.diff(s1, s2)
+            d = S.diff(s1, s2, rel=1e-12)  # copies go through GLPK's 15-significant-digit text format
             if new_model._contexts:
                 d.append("copy has a non-empty context stack")
             ids = set()
@@ -955,6 +1008,43 @@ class Hist:
             raise Violation("restart_fixpoint", {"what": f"a second {fmt} round trip changes the model", "diff(first,second)": d[:8]}, culprit=op)
         self.stats["probe:restart_fixpoint_checked"] += 1
 
+    def do_helper(self, a, op, env):
+        from cobra.flux_analysis.moma import add_moma
+        from cobra.flux_analysis.parsimonious import add_pfba
+        from cobra.util.solver import add_lp_feasibility, fix_objective_as_constraint
+
+        n = op["name"]
+        self.stats[f"helper:{n}"] += 1
+        if n == "add_pfba":
+            add_pfba(a.model, fraction_of_optimum=op.get("fraction", 1.0))
+        elif n == "add_moma":
+            add_moma(a.model, linear=True)
+        elif n == "fix_objective":
+            fix_objective_as_constraint(a.model, fraction=op.get("fraction", 1.0))
+        elif n == "add_lp_feasibility":
+            add_lp_feasibility(a.model)
+        else:
+            raise Skip(n)
+
+    def do_merge(self, a, op, env):
+        right = build_model(op["right"])
+        res = a.model.merge(right, prefix_existing=op.get("prefix"), inplace=op.get("inplace", True),
+                            objective=op.get("objective", "left"))
+        if op.get("inplace", True):
+            if res is not a.model:
+                raise Violation("ref_equal", {"what": "merge(inplace=True) did not return the model itself"}, culprit=op)
+        else:
+            if res is a.model:
+                raise Violation("isolation", {"what": "merge(inplace=False) returned the left model"}, culprit=op)
+            env.merged = res
+        # the right model must not be touched
+        want = S.snap(build_model(op["right"]))
+        got = S.snap(right)
+        d = S.diff(want, got)
+        if d and ("isolation" in self.oracles or "ref_equal" in self.oracles):
+            raise Violation("isolation", {"what": "merge changed the right-hand model", "diff": d[:6]}, culprit=op)
+        return res
+
     def do_rxn_copy(self, a, op, env):
         r = self.rxn(a, op["r"])
         c = r.copy()
@@ -1081,13 +1171,13 @@ ALL_KINDS = {
     "remove_genes": 2, "rename_genes": 1, "medium": 2, "build_from_string": 1, "optimize": 2,
     "slim_optimize": 2, "repair": 1, "solver": 1, "tolerance": 1, "compartments": 1, "add_groups": 1,
     "remove_groups": 1, "enter": 0, "exit": 0, "exit_exc": 0, "copy": 0, "deepcopy": 0, "pickle": 0,
-    "rxn_copy": 1, "rxn_arith": 1, "edit_dict": 1, "restart": 0,
+    "rxn_copy": 1, "rxn_arith": 1, "edit_dict": 1, "restart": 0, "helper": 1, "merge": 1,
 }
 
 PROP_BIAS = {
-    "C01": {"solver": 3, "copy": 1, "pickle": 1, "deepcopy": 1, "enter": 2, "exit": 3, "exit_exc": 1},
+    "C01": {"helper": 2, "merge": 2, "solver": 3, "copy": 1, "pickle": 1, "deepcopy": 1, "enter": 2, "exit": 3, "exit_exc": 1},
     "C02": {},
-    "C03": {"enter": 6, "exit": 6, "exit_exc": 2, "rename_rxn": 0, "rename_met": 0, "repair": 0, "solver": 0,
+    "C03": {"enter": 6, "exit": 6, "exit_exc": 2, "helper": 3, "merge": 2, "rename_rxn": 0, "rename_met": 0, "repair": 0, "solver": 0,
             "tolerance": 0, "compartments": 0, "add_groups": 0, "remove_groups": 0, "set_attr": 0,
             "edit_dict": 0},
     "C07": {"knock_out_gene": 12, "knock_out_model_genes": 8, "knock_out_rxn": 4, "set_functional": 4,
@@ -1224,9 +1314,9 @@ def gen_op(rng, H, sw):
         if inv and k == "set_rule" and rng.random() < 0.5:
             op.update(tree=None, rule=rng.choice(["g1 and", "(g1", "g1 or or g2"]), malformed=True)
     elif k == "rename_rxn":
-        op.update(r=rid(), new=(rid() if inv else _fresh("Q", ref.rxns, rng)))
+        op.update(r=rid(), new=(rng.choice([rid(), "bad id"]) if inv else _fresh("Q", ref.rxns, rng)))
     elif k == "rename_met":
-        op.update(m=mid(), new=(mid() if inv else _fresh("Z", ref.mets, rng)))
+        op.update(m=mid(), new=(rng.choice([mid(), "bad id"]) if inv else _fresh("Z", ref.mets, rng)))
     elif k == "set_attr":
         kind = rng.choice(["rxn", "rxn", "met", "met", "gene"])
         if kind == "rxn":
@@ -1263,6 +1353,8 @@ def gen_op(rng, H, sw):
                 m["id"] = mid()  # already present -> ignored
             m.pop("t")
             ms.append(m)
+        if inv and rng.random() < 0.5:
+            ms[-1]["id"] = "bad met"
         op.update(mets=ms, single=rng.random() < 0.3)
     elif k == "remove_metabolites":
         op.update(ms=sorted({mid() for _ in range(rng.randint(1, 2))}), destructive=rng.random() < 0.4,
@@ -1291,6 +1383,8 @@ def gen_op(rng, H, sw):
                           "mets": ml, "tree": tree, "rule": gprtree.spell(tree, rng)})
         if len({s["id"] for s in specs}) != len(specs) and not inv:
             specs = specs[:1]
+        if inv and rng.random() < 0.5:
+            specs[-1]["id"] = "bad rxn"  # an id the solver interface rejects (whitespace)
         op["rxns"] = specs
     elif k == "remove_reactions":
         rs = sorted({rid() for _ in range(rng.randint(1, 2))})
@@ -1404,6 +1498,16 @@ def gen_op(rng, H, sw):
                   pretty=rng.random() < 0.3, strpath=rng.random() < 0.7, Gw=list(rng.choice(G)), Gr=list(rng.choice(G)))
         if op["fmt"] == "sbml":
             op.update(f_replace=rng.choice(["default", "default", "none"]), sio=rng.random() < 0.3)
+    elif k == "helper":
+        op.update(name=rng.choice(["add_pfba", "add_moma", "fix_objective", "fix_objective", "add_lp_feasibility"]),
+                  fraction=rng.choice([1.0, 1.0, 0.5]))
+    elif k == "merge":
+        sw2 = dict(sw, max_mets=min(4, sw["max_mets"] + 1), max_rxns=3, p_groups=0)
+        right = gen_model_spec(rng, sw2)
+        right["id"] = "right"
+        right["solver"] = "glpk"
+        op.update(right=right, prefix=rng.choice([None, None, "pre_"]), inplace=rng.random() < 0.75,
+                  objective=rng.choice(["left", "left", "right", "sum"]))
     elif k == "rxn_copy":
         op.update(r=rid(), key=f"d{len(H.detached)}")
     elif k == "rxn_arith":
@@ -1471,6 +1575,8 @@ def _execute(trace, prop, run_cfg, gen=None):
                                 v.culprit = op
                             raise
                         res.steps += 1
+        except EndRun:
+            pass
         except Violation as v:
             res.violation = v.as_dict()
     finally:
